@@ -136,6 +136,12 @@ func Session(t *tape.Tape) *core.RunResult {
 	hashes := make([]board.ZobristHash, nHash)
 	for i := range hashes {
 		hashes[i] = board.ZobristHash(uint64(t.Choose(int(slots))) + slots*uint64(i+1)*977)
+		// some hashes are aliases of an earlier one: same slot, differing in one high bit only, so that a
+		// table that compares less than the full hash returns one position's entry for the other
+		if i > 0 && t.Chance(1, 3) {
+			hashes[i] = hashes[t.Choose(i)] ^ board.ZobristHash(uint64(1)<<uint(20+t.Choose(44)))
+			res.Probe("aliased-hash")
+		}
 	}
 	nClients := t.Range(2, 5)
 	opsPer := t.Range(2, 8)
